@@ -4,7 +4,7 @@ Emits, from the *source text* of the working tree:
 
 * ``init_defaults``    the keyword defaults of ``XmlDocument.__init__`` that feed
                        the parser options;
-* ``parser_kwargs_src`` the ``self.parser_kwargs = dict(...)`` assignment, each
+* ``parser_kwargs_src`` the ``self.parser_kwargs = <dict display>`` assignment, each
                        value either the ``__init__`` parameter of some name or a
                        literal;
 * ``parse_sites``      every ``etree.fromstring / XML / XMLID / parse / iterparse``
@@ -14,11 +14,34 @@ Emits, from the *source text* of the working tree:
                        ``try: ... except XMLSyntaxError: raise Fault('Client.XMLSyntaxError', ..)``
                        and which role it plays.
 
-Fail closed: any shape not recognised exactly raises TranslateError.  A parse
-call in a function this file does not know is treated as a *request* site (so
-it has to be safe), never silently ignored.
+Fail closed: any shape not recognised raises TranslateError.  A parse call in
+a function this file does not know is treated as a *request* site (so it has
+to be safe), never silently ignored.
+
+The tables are produced after normalisation, so that rewrites which cannot
+change them do not change the output (each rule states why it is sound where
+it is implemented):
+
+* the option dict is a *display*: ``dict(k=v, ..)``, ``{'k': v, ..}``, with
+  ``**<display>`` flattened in place, assigned directly or through a local that
+  is bound once and read once; its position among the top-level statements of
+  ``__init__`` is irrelevant because parameters may not be rebound and the
+  attribute may not be written, aliased or called on anywhere else;
+* a parser argument is followed through function parameters to all callers, a
+  local bound exactly once by ``p = <expr>`` that is only passed on as a call
+  argument, and ``self.<helper>()`` where the helper is the single definition
+  of that name, undecorated, takes only ``self`` and consists of
+  ``return <expr>`` (or ``x = <expr>; return x``) -- a cache or a condition in
+  the body is not a helper in this sense and is refused;
+* the try/except that turns ``XMLSyntaxError`` into the client fault is found
+  lexically (the first handler able to receive the exception decides) or, for
+  a private function that lets it through and is only ever called directly
+  inside the scanned files and named nowhere else in the package, at every one
+  of its call sites;
+* ``route_sites`` finds the function that parses for each route by following
+  calls from ``<protocol>.create_in_document`` instead of pinning its name.
 """
-import ast, os
+import ast, os, re
 from .pyexpr import TranslateError, attr_chain
 
 FILES = ['spyne/protocol/xml.py', 'spyne/protocol/soap/soap11.py', 'spyne/protocol/soap/soap12.py',
@@ -42,6 +65,12 @@ ROLES = {
     ('spyne/protocol/_inbase.py', 'InProtocolBase.any_xml_from_bytes'): 'OtherProtocol',
     ('spyne/protocol/_inbase.py', 'InProtocolBase.any_html_from_bytes'): 'OtherProtocol',
 }
+
+
+# exception classes that are not base classes of lxml.etree.XMLSyntaxError
+# (XMLSyntaxError < ParseError < LxmlSyntaxError < LxmlError, SyntaxError < Exception)
+DISJOINT_EXC = {'ValueError', 'UnicodeError', 'UnicodeDecodeError', 'UnicodeEncodeError', 'LookupError', 'KeyError',
+                'IndexError', 'TypeError', 'AttributeError'}
 
 
 def pyval(node, where):
@@ -96,6 +125,21 @@ class Tree(object):
     def functions(self, name):
         return [n for n in self.qual if isinstance(n, ast.FunctionDef) and n.name == name]
 
+    def scope_nodes(self, fn):
+        """nodes of fn's own scope: nested functions, lambdas, classes and comprehensions are reported through
+        `nested` instead (their bodies are other scopes)"""
+        own, nested = [], []
+        todo = list(ast.iter_child_nodes(fn))
+        while todo:
+            n = todo.pop()
+            if isinstance(n, (ast.FunctionDef, ast.AsyncFunctionDef, ast.Lambda, ast.ClassDef,
+                              ast.ListComp, ast.SetComp, ast.DictComp, ast.GeneratorExp)):
+                nested.append(n)
+                continue
+            own.append(n)
+            todo.extend(ast.iter_child_nodes(n))
+        return own, nested
+
 
 def is_xmlparser_ctor(f):
     ch = attr_chain(f)
@@ -119,7 +163,7 @@ class Translator(object):
             raise TranslateError('XmlDocument.__init__: unexpected *args/**kwargs/keyword-only parameters')
         names = [x.arg for x in a.args]
         defaults = dict(zip(names[len(names) - len(a.defaults):], a.defaults))
-        # the dict(...) assignment
+        # the assignment of the option dict
         assigns = []
         for n in ast.walk(fn):
             if isinstance(n, ast.Assign) and any(attr_chain(tg) == ['self', 'parser_kwargs'] for tg in n.targets):
@@ -128,33 +172,53 @@ class Translator(object):
             raise TranslateError('expected exactly one `self.parser_kwargs = ...` in XmlDocument.__init__')
         if t.parent[assigns[0]] is not fn:
             raise TranslateError('`self.parser_kwargs = ...` is not a top-level statement of __init__ (conditional?)')
-        call = assigns[0].value
-        if not (isinstance(call, ast.Call) and attr_chain(call.func) == ['dict'] and not call.args):
-            raise TranslateError('parser_kwargs is not built by dict(k=v, ...)')
+        value = assigns[0].value
+        local = None
+        if isinstance(value, ast.Name):
+            # `kw = <dict>; self.parser_kwargs = kw`: the local must be bound once, at the top level of
+            # __init__, before the assignment, and be read nowhere else (no alias survives __init__)
+            local = value.id
+            if local in names:
+                raise TranslateError('parser_kwargs is assigned from the parameter %r' % local)
+            binds = [n for n in ast.walk(fn) if isinstance(n, ast.Name) and n.id == local
+                     and isinstance(n.ctx, (ast.Store, ast.Del))]
+            loads = [n for n in ast.walk(fn) if isinstance(n, ast.Name) and n.id == local
+                     and isinstance(n.ctx, ast.Load)]
+            if len(binds) != 1 or loads != [value]:
+                raise TranslateError('parser_kwargs: local %r is not bound once and read once' % local)
+            st = t.parent[binds[0]]
+            if not (isinstance(st, ast.Assign) and len(st.targets) == 1 and st.targets[0] is binds[0]
+                    and t.parent[st] is fn and fn.body.index(st) < fn.body.index(assigns[0])):
+                raise TranslateError('parser_kwargs: local %r is not a plain top-level assignment before its use' % local)
+            for n in ast.walk(fn):
+                if isinstance(n, (ast.Global, ast.Nonlocal)) or \
+                        (n is not fn and isinstance(n, (ast.FunctionDef, ast.AsyncFunctionDef, ast.Lambda, ast.ClassDef))):
+                    raise TranslateError('parser_kwargs: nested scope or global statement next to local %r' % local)
+            value = st.value
+        items = self.dict_items(value)
         # parameters must not be rebound inside __init__ before use
         rebound = set()
         for n in ast.walk(fn):
             if isinstance(n, ast.Name) and isinstance(n.ctx, (ast.Store, ast.Del)):
                 rebound.add(n.id)
+        if local is not None:
+            rebound.discard(local)
         srcs, used = [], []
-        for k in call.keywords:
-            if k.arg is None:
-                raise TranslateError('parser_kwargs: **expansion inside dict(...)')
-            if k.arg not in KWS:
-                raise TranslateError('parser_kwargs: unknown XMLParser keyword %r' % k.arg)
-            v = k.value
+        for key, v in items:
+            if key not in KWS:
+                raise TranslateError('parser_kwargs: unknown XMLParser keyword %r' % key)
             if isinstance(v, ast.Name):
                 if v.id not in names or v.id == 'self':
-                    raise TranslateError('parser_kwargs[%s]: %r is not an __init__ parameter' % (k.arg, v.id))
+                    raise TranslateError('parser_kwargs[%s]: %r is not an __init__ parameter' % (key, v.id))
                 if v.id in rebound:
-                    raise TranslateError('parser_kwargs[%s]: parameter %r is rebound inside __init__' % (k.arg, v.id))
+                    raise TranslateError('parser_kwargs[%s]: parameter %r is rebound inside __init__' % (key, v.id))
                 if v.id not in KWS:
-                    raise TranslateError('parser_kwargs[%s]: parameter %r is not a parser keyword' % (k.arg, v.id))
-                srcs.append((k.arg, 'FromParam K_%s' % v.id))
+                    raise TranslateError('parser_kwargs[%s]: parameter %r is not a parser keyword' % (key, v.id))
+                srcs.append((key, 'FromParam K_%s' % v.id))
                 if v.id not in used:
                     used.append(v.id)
             else:
-                srcs.append((k.arg, 'Const %s' % pyval(v, 'parser_kwargs[%s]' % k.arg)))
+                srcs.append((key, 'Const %s' % pyval(v, 'parser_kwargs[%s]' % key)))
         if len(set(k for k, _ in srcs)) != len(srcs):
             raise TranslateError('parser_kwargs: duplicate keyword')
         dfl = []
@@ -163,6 +227,33 @@ class Translator(object):
                 raise TranslateError('__init__ parameter %r has no default' % p)
             dfl.append((p, pyval(defaults[p], '__init__ default of %s' % p)))
         return dfl, srcs
+
+    def dict_items(self, node):
+        """[(key, value node)] of a dict display: `dict(k=v, ...)`, `{'k': v, ...}`, and inside either one
+        `**{'k': v, ...}` / `**dict(k=v)` of another display (flattened in place: same keys, same values, same
+        insertion order).  Anything else (comprehension, zip, update, a name) is not a display."""
+        if isinstance(node, ast.Call) and attr_chain(node.func) == ['dict'] and not node.args:
+            pairs = [(k.arg, k.value) for k in node.keywords]
+        elif isinstance(node, ast.Dict):
+            pairs = []
+            for k, v in zip(node.keys, node.values):
+                if k is None:
+                    pairs.append((None, v))
+                elif isinstance(k, ast.Constant) and isinstance(k.value, str):
+                    pairs.append((k.value, v))
+                else:
+                    raise TranslateError('parser_kwargs: dict key is not a string literal: %s' % ast.dump(k)[:60])
+        else:
+            raise TranslateError('parser_kwargs is not built by dict(k=v, ...) or a {"k": v, ...} display')
+        out = []
+        for k, v in pairs:
+            if k is None:
+                if not isinstance(v, (ast.Dict, ast.Call)):
+                    raise TranslateError('parser_kwargs: **expansion of something that is not a dict display')
+                out.extend(self.dict_items(v))
+            else:
+                out.append((k, v))
+        return out
 
     def check_no_other_writes(self):
         """parser_kwargs must be written only by the one assignment in XmlDocument.__init__"""
@@ -226,6 +317,18 @@ class Translator(object):
                     raise TranslateError('%s:%d: unrecognised XMLParser keyword' % (t.rel, node.lineno))
                 items.append('(K_%s, %s)' % (k.arg, pyval(k.value, '%s:%d' % (t.rel, node.lineno))))
             return '(PLiteral [%s])' % '; '.join(items)
+        if isinstance(node, ast.Call) and isinstance(node.func, ast.Attribute) and \
+                isinstance(node.func.value, ast.Name) and not is_xmlparser_ctor(node.func):
+            # self.<helper>(): a private method whose body is `return <parser expression>`
+            if depth > 3:
+                raise TranslateError('%s:%d: parser helper chain too deep' % (t.rel, node.lineno))
+            t2, body_expr = self.parser_helper(t, node)
+            return self.parser_expr(t2, body_expr, depth + 1)
+        if isinstance(node, ast.Name) and self.is_single_local(t, node):
+            # p = <parser expression> ... parse(x, p): the one binding of p in this function
+            if depth > 3:
+                raise TranslateError('%s:%d: parser variable chain too deep' % (t.rel, node.lineno))
+            return self.parser_expr(t, self.local_value(t, node), depth + 1)
         if isinstance(node, ast.Name):
             fn = t.enclosing_function(node)
             if fn is None:
@@ -291,37 +394,251 @@ class Translator(object):
             return 'PUndefinedAttr'
         raise TranslateError('%s:%d: unrecognised parser argument %s' % (t.rel, node.lineno, ast.dump(node)[:100]))
 
-    def catches(self, t, call):
-        """is the call inside a try body whose handlers turn XMLSyntaxError into Fault('Client.XMLSyntaxError')?"""
+    # ---------------------------------------------------------------- normalisation: helpers and locals
+    def all_params(self, fn):
+        a = fn.args
+        return [x.arg for x in a.posonlyargs + a.args + a.kwonlyargs] + \
+               [x.arg for x in (a.vararg, a.kwarg) if x is not None]
+
+    def is_single_local(self, t, node):
+        fn = t.enclosing_function(node)
+        if fn is None or node.id in self.all_params(fn):
+            return False
+        return any(isinstance(n, ast.Name) and n.id == node.id and isinstance(n.ctx, ast.Store)
+                   for n in ast.walk(fn))
+
+    def local_value(self, t, node):
+        """the expression bound to the local `node.id`: exactly one binding in the function, a plain
+        `name = expr` statement that is not inside a loop, lexically before the use; every read of the name is a
+        direct argument of a call (so the object is only handed on, never configured through the name).  If the
+        use is reached without the binding having run, Python raises UnboundLocalError and nothing is parsed."""
+        fn = t.enclosing_function(node)
+        where = '%s:%d: parser variable %r' % (t.rel, node.lineno, node.id)
+        own, nested = t.scope_nodes(fn)
+        for n in nested:
+            for m in ast.walk(n):
+                if isinstance(m, ast.Name) and m.id == node.id:
+                    raise TranslateError('%s is used in a nested scope' % where)
+        for n in own:
+            if isinstance(n, (ast.Global, ast.Nonlocal)) and node.id in n.names:
+                raise TranslateError('%s is global/nonlocal' % where)
+            if isinstance(n, (ast.Import, ast.ImportFrom)) and any((x.asname or x.name.split('.')[0]) == node.id for x in n.names):
+                raise TranslateError('%s is also bound by an import' % where)
+            if isinstance(n, ast.ExceptHandler) and n.name == node.id:
+                raise TranslateError('%s is also bound by an except clause' % where)
+            if isinstance(n, (ast.MatchAs, ast.MatchStar)) and n.name == node.id:
+                raise TranslateError('%s is also bound by a match pattern' % where)
+        binds = [n for n in own if isinstance(n, ast.Name) and n.id == node.id and isinstance(n.ctx, (ast.Store, ast.Del))]
+        if len(binds) != 1:
+            raise TranslateError('%s is bound %d times' % (where, len(binds)))
+        st = t.parent[binds[0]]
+        if not (isinstance(st, ast.Assign) and len(st.targets) == 1 and st.targets[0] is binds[0]):
+            raise TranslateError('%s is not bound by a plain `name = expr`' % where)
+        p = t.parent[st]
+        while p is not fn:
+            if isinstance(p, (ast.For, ast.AsyncFor, ast.While)):
+                raise TranslateError('%s is bound inside a loop' % where)
+            p = t.parent[p]
+        if (st.lineno, st.col_offset) >= (node.lineno, node.col_offset):
+            raise TranslateError('%s is used before its binding' % where)
+        for n in own:
+            if isinstance(n, ast.Name) and n.id == node.id and isinstance(n.ctx, ast.Load):
+                par = t.parent[n]
+                if not ((isinstance(par, ast.Call) and any(n is x for x in par.args)) or
+                        (isinstance(par, ast.keyword) and par.arg is not None)):
+                    raise TranslateError('%s:%d: parser variable %r is used other than as a call argument'
+                                         % (t.rel, n.lineno, node.id))
+        return st.value
+
+    def class_of(self, t, fn):
+        p = t.parent.get(fn)
+        return p if isinstance(p, ast.ClassDef) else None
+
+    def parser_helper(self, t, call):
+        """`self.name()` -> (tree, expression returned by the method `name`).  Accepted only if the method is
+        the single definition of that name in the scanned files, sits in the calling class or in a
+        single-inheritance ancestor of it inside the scanned files, takes only `self`, is undecorated, and its
+        body (docstring dropped) is `return e` or `x = e; return x`.  A body that does anything else (a cache
+        look-up, a condition) is not a helper in this sense and is refused."""
+        name = call.func.attr
+        where = '%s:%d: %s.%s()' % (t.rel, call.lineno, call.func.value.id, name)
+        if call.args or call.keywords:
+            raise TranslateError('%s: parser helper called with arguments' % where)
+        fn = t.enclosing_function(call)
+        cls = self.class_of(t, fn) if fn is not None else None
+        if fn is None or cls is None or not fn.args.args or fn.args.args[0].arg != call.func.value.id or fn.decorator_list:
+            raise TranslateError('%s: receiver is not the self of a plain method' % where)
+        for n in ast.walk(fn):
+            if isinstance(n, ast.Name) and n.id == call.func.value.id and isinstance(n.ctx, (ast.Store, ast.Del)):
+                raise TranslateError('%s: the receiver is rebound' % where)
+        defs = []
+        for t2 in self.trees:
+            for n in ast.walk(t2.tree):
+                if isinstance(n, (ast.FunctionDef, ast.AsyncFunctionDef, ast.ClassDef)) and n.name == name:
+                    defs.append((t2, n))
+                if isinstance(n, ast.Attribute) and n.attr == name and isinstance(n.ctx, (ast.Store, ast.Del)):
+                    raise TranslateError('%s:%d: attribute %s is assigned' % (t2.rel, n.lineno, name))
+                if isinstance(n, ast.Name) and n.id == name and isinstance(n.ctx, (ast.Store, ast.Del)):
+                    raise TranslateError('%s:%d: the name %s is bound by an assignment' % (t2.rel, n.lineno, name))
+                if isinstance(n, ast.Constant) and n.value == name:
+                    raise TranslateError('%s:%d: the string %r (setattr?)' % (t2.rel, n.lineno, name))
+                if isinstance(n, ast.alias) and (n.asname or n.name) == name:
+                    raise TranslateError('%s:%d: %s is imported' % (t2.rel, n.lineno, name))
+        if len(defs) != 1 or not isinstance(defs[0][1], ast.FunctionDef):
+            raise TranslateError('%s: %d definitions of %s in the scanned files' % (where, len(defs), name))
+        t2, hf = defs[0]
+        hcls = self.class_of(t2, hf)
+        if hcls is None:
+            raise TranslateError('%s: %s is not a method' % (where, name))
+        # the defining class must be the calling class or reachable from it by single inheritance
+        classes = {}
+        for t3 in self.trees:
+            for n in ast.walk(t3.tree):
+                if isinstance(n, ast.ClassDef):
+                    if n.name in classes:
+                        raise TranslateError('class name %s is defined twice in the scanned files' % n.name)
+                    classes[n.name] = n
+        c, hops = cls, 0
+        while c is not hcls:
+            if len(c.bases) != 1 or c.keywords or hops > 8:
+                raise TranslateError('%s: cannot follow the bases of %s to the class defining %s' % (where, c.name, name))
+            ch = attr_chain(c.bases[0])
+            if not ch or ch[-1] not in classes:
+                raise TranslateError('%s: base of %s is outside the scanned files' % (where, c.name))
+            c, hops = classes[ch[-1]], hops + 1
+        a = hf.args
+        if hf.decorator_list or [x.arg for x in a.args] != ['self'] or a.vararg or a.kwarg or a.kwonlyargs or \
+                a.posonlyargs or a.defaults:
+            raise TranslateError('%s:%d: %s is not a plain undecorated method taking only self' % (t2.rel, hf.lineno, name))
+        body = list(hf.body)
+        if body and isinstance(body[0], ast.Expr) and isinstance(body[0].value, ast.Constant) and \
+                isinstance(body[0].value.value, str):
+            body = body[1:]
+        if len(body) == 1 and isinstance(body[0], ast.Return) and body[0].value is not None:
+            return t2, body[0].value
+        if len(body) == 2 and isinstance(body[0], ast.Assign) and len(body[0].targets) == 1 and \
+                isinstance(body[0].targets[0], ast.Name) and body[0].targets[0].id != 'self' and \
+                isinstance(body[1], ast.Return) and isinstance(body[1].value, ast.Name) and \
+                body[1].value.id == body[0].targets[0].id:
+            return t2, body[0].value
+        raise TranslateError('%s:%d: body of %s is not `return <expr>`' % (t2.rel, hf.lineno, name))
+
+    def _converting(self, h):
+        """except XMLSyntaxError [as e]: <no control flow> ; raise Fault('Client.XMLSyntaxError', ...)"""
+        if not h.body:
+            return False
+        last = h.body[-1]
+        return isinstance(last, ast.Raise) and isinstance(last.exc, ast.Call) and \
+            attr_chain(last.exc.func) == ['Fault'] and bool(last.exc.args) and \
+            isinstance(last.exc.args[0], ast.Constant) and \
+            last.exc.args[0].value == 'Client.XMLSyntaxError' and \
+            all(not isinstance(s, (ast.Return, ast.If, ast.Try, ast.While, ast.For)) for s in h.body)
+
+    def catches(self, t, call, depth=0):
+        """is lxml's XMLSyntaxError, raised by `call`, turned into Fault('Client.XMLSyntaxError')?  Looked for
+        lexically (the innermost enclosing try body whose handlers can receive the exception decides); when the
+        function itself lets the exception through and is a private helper that is only ever called directly,
+        the question is put to every one of its call sites instead (helper extracted from a pinned function)."""
         n = call
         while n is not None:
             p = t.parent.get(n)
-            if isinstance(p, ast.Try) and any(n is s or self._inside(t, call, s) for s in p.body):
-                for h in p.handlers:
-                    names = []
-                    if h.type is not None:
-                        tys = h.type.elts if isinstance(h.type, ast.Tuple) else [h.type]
-                        names = [attr_chain(x)[-1] for x in tys if attr_chain(x)]
-                    if 'XMLSyntaxError' in names and len(h.body) >= 1:
-                        last = h.body[-1]
-                        if isinstance(last, ast.Raise) and isinstance(last.exc, ast.Call) and \
-                                attr_chain(last.exc.func) == ['Fault'] and last.exc.args and \
-                                isinstance(last.exc.args[0], ast.Constant) and \
-                                last.exc.args[0].value == 'Client.XMLSyntaxError' and \
-                                all(not isinstance(s, (ast.Return, ast.If, ast.Try, ast.While, ast.For))
-                                    for s in h.body):
-                            return True
-            if isinstance(p, (ast.FunctionDef, ast.AsyncFunctionDef)):
-                return False
+            if isinstance(p, ast.Try):
+                for s in p.finalbody:
+                    for m in ast.walk(s):
+                        if isinstance(m, (ast.Return, ast.Break, ast.Continue)):
+                            return False        # a finally clause that can discard the exception
+                if any(n is s for s in p.body):
+                    for h in p.handlers:
+                        names = None
+                        if h.type is not None:
+                            tys = h.type.elts if isinstance(h.type, ast.Tuple) else [h.type]
+                            names = [(attr_chain(x) or ['?'])[-1] for x in tys]
+                        if names is not None and all(x in DISJOINT_EXC for x in names):
+                            continue            # cannot receive an XMLSyntaxError
+                        return names is not None and 'XMLSyntaxError' in names and self._converting(h)
+            if isinstance(p, (ast.AsyncFunctionDef, ast.Lambda, ast.With, ast.AsyncWith)):
+                return False                    # (a context manager may swallow the exception)
+            if isinstance(p, ast.FunctionDef):
+                return self.callers_catch(t, p, depth)
             n = p
         return False
 
-    def _inside(self, t, n, anc):
-        while n is not None:
-            if n is anc:
-                return True
-            n = t.parent.get(n)
-        return False
+    def callers_catch(self, t, fn, depth):
+        name = fn.name
+        if depth > 2 or not name.startswith('_') or name.startswith('__') or fn.decorator_list:
+            return False
+        if any(isinstance(m, (ast.Yield, ast.YieldFrom)) for m in ast.walk(fn)):
+            return False                        # a generator body does not run inside the caller's try
+        calls = []
+        for t2 in self.trees:
+            for n in ast.walk(t2.tree):
+                if isinstance(n, (ast.FunctionDef, ast.AsyncFunctionDef, ast.ClassDef)) and n.name == name and n is not fn:
+                    return False
+                if isinstance(n, ast.Constant) and n.value == name:
+                    return False
+                if isinstance(n, ast.alias) and (n.asname or n.name) == name:
+                    return False
+                ident = n.id if isinstance(n, ast.Name) else n.attr if isinstance(n, ast.Attribute) else None
+                if ident == name:
+                    par = t2.parent.get(n)
+                    if isinstance(n.ctx, ast.Load) and isinstance(par, ast.Call) and par.func is n:
+                        calls.append((t2, par))
+                    else:
+                        return False            # stored, deleted, or used as a value
+        if not calls:
+            return False
+        # the name must not occur anywhere else in the package (a caller this translator does not see)
+        scanned = set(os.path.normpath(os.path.join(self.repo, rel)) for rel in FILES)
+        pat = re.compile(r'\b%s\b' % re.escape(name))
+        for dirpath, dirs, files in os.walk(os.path.join(self.repo, 'spyne')):
+            for f in files:
+                full = os.path.normpath(os.path.join(dirpath, f))
+                if f.endswith('.py') and full not in scanned:
+                    with open(full, encoding='utf-8', errors='replace') as fh:
+                        if pat.search(fh.read()):
+                            return False
+        return all(self.catches(t2, c, depth + 1) for t2, c in calls)
+
+    # ---------------------------------------------------------------- which function parses for which route
+    def unique_function(self, name):
+        defs = [(t, n) for t in self.trees for n in t.qual
+                if isinstance(n, (ast.FunctionDef, ast.AsyncFunctionDef, ast.ClassDef)) and n.name == name]
+        if len(defs) == 1 and isinstance(defs[0][1], ast.FunctionDef):
+            return defs[0]
+        return None
+
+    def method_of(self, cls_name, name):
+        for hops in range(8):
+            cs = [(t, n) for t in self.trees for n in t.qual if isinstance(n, ast.ClassDef) and n.name == cls_name]
+            if len(cs) != 1:
+                raise TranslateError('class %s is defined %d times in the scanned files' % (cls_name, len(cs)))
+            t, c = cs[0]
+            ms = [m for m in c.body if isinstance(m, ast.FunctionDef) and m.name == name]
+            if len(ms) == 1:
+                return t, ms[0]
+            if ms or len(c.bases) != 1 or not attr_chain(c.bases[0]):
+                raise TranslateError('cannot find %s.%s' % (cls_name, name))
+            cls_name = attr_chain(c.bases[0])[-1]
+        raise TranslateError('base chain too long')
+
+    def request_site_functions(self, t, root, depth=0):
+        out = set()
+        for c in ast.walk(root):
+            if not isinstance(c, ast.Call):
+                continue
+            ch = attr_chain(c.func)
+            if not ch:
+                continue
+            if len(ch) == 2 and ch[0] == 'etree' and ch[1] in ETREE_PARSE:
+                fn = t.enclosing_function(c)
+                qual = t.qual.get(fn, '<module>') if fn is not None else '<module>'
+                if ROLES.get((t.rel, qual), 'Request') == 'Request':
+                    out.add(qual)
+                continue
+            d = self.unique_function(ch[-1])
+            if d is not None and depth < 4:
+                out |= self.request_site_functions(d[0], d[1], depth + 1)
+        return out
 
     def sites(self):
         out = []
@@ -371,6 +688,37 @@ class Translator(object):
                     raise TranslateError('%s:%d: use of %s' % (t.rel, n.lineno, n.attr))
         out.sort(key=lambda s: (s[0], s[2]))
         return out
+
+
+def route_sites(repo):
+    """{'XmlDocument' | 'Soap11' | 'Soap12': function holding the request parse whose result becomes
+    ctx.in_document, 'swa': function holding the parse of the multipart pre-pass (result becomes ctx.in_string)},
+    found by following calls from <protocol>.create_in_document; the names are those used in `parse_sites`."""
+    tr = Translator(repo)
+    res = {}
+    for proto in ('XmlDocument', 'Soap11', 'Soap12'):
+        t, fn = tr.method_of(proto, 'create_in_document')
+        found = {'in_document': set(), 'in_string': set()}
+        for st in ast.walk(fn):
+            if isinstance(st, ast.Assign) and len(st.targets) == 1:
+                ch = attr_chain(st.targets[0])
+                if ch and len(ch) == 2 and ch[1] in found:
+                    p, fallback = t.parent.get(st), False
+                    while p is not None and p is not fn:
+                        fallback = fallback or isinstance(p, ast.ExceptHandler)
+                        p = t.parent.get(p)
+                    if not fallback:        # (a parse inside an except clause is a fallback, not the route's parse)
+                        found[ch[1]] |= tr.request_site_functions(t, st.value)
+        if len(found['in_document']) != 1:
+            raise TranslateError('%s.create_in_document: the parse that yields ctx.in_document is in %s'
+                                 % (proto, sorted(found['in_document']) or 'no function'))
+        res[proto] = found['in_document'].pop()
+        if proto == 'Soap11':
+            if len(found['in_string']) != 1:
+                raise TranslateError('Soap11.create_in_document: the multipart pre-pass parses in %s'
+                                     % (sorted(found['in_string']) or 'no function'))
+            res['swa'] = found['in_string'].pop()
+    return res
 
 
 def generate(repo):
